@@ -73,14 +73,14 @@ theorem pvBody_sim [DecidableEq M] (o : Oracle M) (hp : PvSim g S IM k cpv' cpv)
   have hac : ∀ (acc : PvAcc M) (s2 : Eng M), PvAccGood IM acc → EngGood IM s2 →
       CtlGood IM (PvAccGood IM) (fun r : Res M => PVGood IM r.1) (afterChild o acc s2) := by
     intro acc s2 hacc hs2
-    obtain ⟨h1, h2⟩ := afterChild_good o acc hs2
+    obtain ⟨h1, h2⟩ := afterChild_engGood o acc hs2
     refine ⟨h1, ?_⟩
     rcases h2 with e | e <;> rw [e]
     · exact hacc
     · exact PVGood.none
   split
   · apply Sat.bind
-    refine (setA_good hs1.pv0 ply m hm _).mono ?_
+    refine (setA_engGood hs1.pv0 ply m hm _).mono ?_
     intro pv0 hpv0
     have hs2 : EngGood IM { s1 with pv0 := pv0 } := ⟨hs1.table, hs1.resp, hpv0⟩
     have hnew : ∀ x ∈ m :: ms.getD [], IM x := by
@@ -90,7 +90,7 @@ theorem pvBody_sim [DecidableEq M] (o : Oracle M) (hp : PvSim g S IM k cpv' cpv)
       · exact hms.getD x h
     split
     · apply Sat.bind
-      refine (recordCut_good hs2 m hm _ ply).mono ?_
+      refine (recordCut_engGood hs2 m hm _ ply).mono ?_
       intro s3 hs3
       exact Sat.pure ⟨hs3, hnew⟩
     · exact Sat.pure (hac _ _ hnew hs2)
@@ -122,7 +122,7 @@ theorem pvNode_sim [DecidableEq M] (hR : Restr g S IM) (cfg : SOpts) (o : Oracle
     | inl r => exact Sim.pure ⟨hs1, hprobe⟩
     | inr te =>
       dsimp only at hprobe ⊢
-      refine Sim.bind (Sim.refl (pvInitBest_good ply pv hpv hs1)) ?_
+      refine Sim.bind (Sim.refl (pvInitBest_engGood ply pv hpv hs1)) ?_
       rintro ⟨best, s2⟩ ⟨hs2, hbest⟩
       dsimp only at hs2 hbest ⊢
       refine Sim.bind (iterate_sim hR (pvBody_sim o hp hz ply depth β _) cfg o hord p' hpk'
@@ -131,8 +131,8 @@ theorem pvNode_sim [DecidableEq M] (hR : Restr g S IM) (cfg : SOpts) (o : Oracle
       dsimp only at hs3 hc ⊢
       cases c with
       | ret r => exact Sim.pure ⟨hs3, hc⟩
-      | next a => exact Sim.refl (pvStore_good o _ depth β a hc hs3)
-      | brk a => exact Sim.refl (pvStore_good o _ depth β a hc hs3)
+      | next a => exact Sim.refl (pvStore_engGood o _ depth β a hc hs3)
+      | brk a => exact Sim.refl (pvStore_engGood o _ depth β a hc hs3)
 
 /-! ### zero-window nodes -/
 
@@ -140,7 +140,7 @@ theorem nullMove_off (g : Game P M) {cfg : SOpts} (hnn : cfg.noNullMove = true) 
     (depth α : Int) (s : Eng M) : nullMove g cfg czw p ply depth α s = .ok (none, s) := by
   unfold nullMove nullMoveOK; rw [hnn]; rfl
 
-theorem slideReduction_good (g : Game P M) (cfg : SOpts) (p : P) (ply : Nat) (depth : Int) {s : Eng M}
+theorem slideReduction_engGood (g : Game P M) (cfg : SOpts) (p : P) (ply : Nat) (depth : Int) {s : Eng M}
     (hs : EngGood IM s) : Sat (slideReduction g cfg p ply depth s) (fun x => EngGood IM x.2) := by
   unfold slideReduction
   split
@@ -208,17 +208,17 @@ theorem zwBody_sim [DecidableEq M] (o : Oracle M) (hz : ZwSim g S IM k czw' czw)
   refine Sim.refl ?_
   split
   · apply Sat.bind
-    refine (recordCut_good hs1 m hm _ ply).mono ?_
+    refine (recordCut_engGood hs1 m hm _ ply).mono ?_
     intro s2 hs2
     apply Sat.bind
-    refine (setA_good hs2.pv0 ply m hm _).mono ?_
+    refine (setA_engGood hs2.pv0 ply m hm _).mono ?_
     intro pv0 hpv0
     refine Sat.pure ⟨⟨hs2.table, hs2.resp, hpv0⟩, ?_⟩
     intro x hx
     rcases List.mem_cons.mp hx with h | h
     · subst h; exact hm
     · exact hms.getD x h
-  · obtain ⟨h1, h2⟩ := afterChild_good o { a with i := a.i + 1 } hs1
+  · obtain ⟨h1, h2⟩ := afterChild_engGood o { a with i := a.i + 1 } hs1
     refine Sat.pure ⟨h1, ?_⟩
     rcases h2 with e | e <;> rw [e]
     · exact ha
@@ -257,7 +257,7 @@ theorem zwNode_sim [DecidableEq M] (hR : Restr g S IM) (cfg : SOpts) (hnn : cfg.
       rintro _ rfl
       dsimp only
       rw [e5]
-      refine Sim.bind (Sim.refl (slideReduction_good g cfg p'.val ply depth hs1)) ?_
+      refine Sim.bind (Sim.refl (slideReduction_engGood g cfg p'.val ply depth hs1)) ?_
       rintro ⟨depth2, s2⟩ hs2
       dsimp only at hs2 ⊢
       have hmg : MGGood IM (⟨ply, depth2, te, pv⟩ : MG M) := ⟨hprobe, hpv⟩
@@ -268,7 +268,7 @@ theorem zwNode_sim [DecidableEq M] (hR : Restr g S IM) (cfg : SOpts) (hnn : cfg.
       | some r => exact Sim.pure ⟨hs3, hmc r rfl⟩
       | none =>
         dsimp only
-        refine Sim.bind (Sim.refl (getA_good hs3.pv0 ply _)) ?_
+        refine Sim.bind (Sim.refl (getA_engGood hs3.pv0 ply _)) ?_
         intro x hx
         have hx' : ZwAccGood IM (⟨[x], 0, false⟩ : ZwAcc M) := by
           intro y hy
@@ -279,8 +279,8 @@ theorem zwNode_sim [DecidableEq M] (hR : Restr g S IM) (cfg : SOpts) (hnn : cfg.
         dsimp only at hs4 hc ⊢
         cases c with
         | ret r => exact Sim.pure ⟨hs4, hc⟩
-        | next a => exact Sim.refl (zwStore_good o _ depth2 α a hc hs4)
-        | brk a => exact Sim.refl (zwStore_good o _ depth2 α a hc hs4)
+        | next a => exact Sim.refl (zwStore_engGood o _ depth2 α a hc hs4)
+        | brk a => exact Sim.refl (zwStore_engGood o _ depth2 α a hc hs4)
 
 /-! ### the recursion -/
 
